@@ -457,13 +457,16 @@ Definition unquoted_ok (v : str) : Prop :=
   match v with c :: _ => is_quote c = false | [] => True end.
 Definition value_ok (st : qstyle) (v : str) : Prop :=
   match st with Unq => unquoted_ok v | _ => True end.
-Definition atom_ok (a : atom) (st : astyle) : Prop :=
+(* [allow_kw]: the unquoted shorthand may be one of the keyword texts (the code accepts that when
+   the pattern is directly followed by a closing parenthesis, finding D14c) *)
+Definition atom_okx (allow_kw : bool) (a : atom) (st : astyle) : Prop :=
   value_ok (st_pat st) (a_pat a) /\
   (if st_short st then
      a_key a = None /\ a_type a = TGlob /\ a_cs a = false /\
-     (st_pat st = Unq -> is_kw_text (a_pat a) = false)
+     (st_pat st = Unq -> allow_kw = false -> is_kw_text (a_pat a) = false)
    else
      match a_key a with Some k => k <> [] /\ value_ok (st_key st) k | None => True end).
+Definition atom_ok : atom -> astyle -> Prop := atom_okx false.
 
 Fixpoint starts_paren (c : cst) : bool :=
   match c with CParen _ _ _ => true | CBin _ l _ _ _ => starts_paren l | _ => false end.
@@ -471,16 +474,22 @@ Fixpoint ends_paren (c : cst) : bool :=
   match c with CParen _ _ _ => true | CBin _ _ _ _ r => ends_paren r | CNot _ c => ends_paren c | _ => false end.
 Definition lev (k : kw) : nat := match k with KOr => 0 | _ => 1 end.
 
-(* [ok lvl c]: c may be printed where the grammar expects level lvl (0 = or, 1 = and, 2 = unary) *)
-Fixpoint ok (lvl : nat) (c : cst) : Prop :=
+Definition is_nil (w : str) : bool := match w with [] => true | _ => false end.
+
+(* [okx b rp lvl c]: c may be printed where the grammar expects level lvl (0 = or, 1 = and, 2 = unary).
+   b: bare keyword patterns are tolerated directly before a closing parenthesis (what the code does);
+   rp: the text is directly followed by a closing parenthesis. *)
+Fixpoint okx (b rp : bool) (lvl : nat) (c : cst) : Prop :=
   match c with
-  | CAtom a st => atom_ok a st
-  | CNot w c => is_ws w /\ ok 2 c /\ (w <> [] \/ starts_paren c = true)
+  | CAtom a st => atom_okx (b && rp) a st
+  | CNot w c => is_ws w /\ okx b rp 2 c /\ (w <> [] \/ starts_paren c = true)
   | CBin k l w1 w2 r =>
-      k <> KNot /\ (lvl <= lev k)%nat /\ is_ws w1 /\ is_ws w2 /\ ok (lev k) l /\ ok (S (lev k)) r /\
+      k <> KNot /\ (lvl <= lev k)%nat /\ is_ws w1 /\ is_ws w2 /\ okx b false (lev k) l /\ okx b rp (S (lev k)) r /\
       (w1 <> [] \/ ends_paren l = true) /\ (w2 <> [] \/ starts_paren r = true)
-  | CParen w1 c w2 => is_ws w1 /\ is_ws w2 /\ ok 0 c
+  | CParen w1 c w2 => is_ws w1 /\ is_ws w2 /\ okx b (is_nil w2) 0 c
   end.
+(* the documented grammar *)
+Definition ok : nat -> cst -> Prop := okx false false.
 
 Fixpoint catoms (c : cst) : list atom :=
   match c with
